@@ -79,7 +79,7 @@ check("C06",
       "rectangular T = 1 (+) Q_B) requires every block of the implicit run -- explicit blocks, explicit x implicit "
       "arrays and the densified implicit x implicit LinearOperators -- to equal T X T^dagger of the twin at every order.",
       "Trusted: TLC/SANY 1.8.0, Json module, reduction mod p; alpha_snap: direct-solver outputs within 1e-9 of a multiple "
-      "of 2^-40, KPM outputs (atol 1e-8, orders<=2) within 40*atol of a multiple of 2^-20 -- instances are built so that "
+      "of 2^-40, KPM outputs (atol 1e-8, orders<=2) within 400*atol*max(1,|value|) of a multiple of 2^-16 -- instances are built so that "
       "true values are dyadic with smaller denominators. Hermitian problems only (non-Hermitian implicit mode is "
       "covered at solver level in C16); KPM convergence is not modelled.",
       "TLA+ relation (embedding of the explicit twin) checked by TLC on paired real runs + reference validation of the twin",
